@@ -7,6 +7,7 @@ executed by CPython on shadow objects (symex.shadows, symex.sstr).  Whenever the
 program needs the truth value of a symbolic condition the shadow calls
 ``ENG.branch``.
 """
+import ctypes
 import time
 import z3
 
@@ -133,7 +134,10 @@ class Engine:
             return cond
         if self.concrete:
             raise TypeError("symbolic branch in concrete mode: %r" % (cond,))
-        cond = z3.simplify(cond)
+        try:
+            cond = z3.simplify(cond)
+        except ctypes.ArgumentError:
+            raise RecursionError("maximum recursion depth exceeded (inside the solver binding)") from None
         if z3.is_true(cond):
             return True
         if z3.is_false(cond):
@@ -147,7 +151,12 @@ class Engine:
             hit = self.decided.get(cond.arg(0).get_id())
             if hit is not None:
                 return not hit[0]
-        d = self._branch(cond)
+        try:
+            d = self._branch(cond)
+        except ctypes.ArgumentError:
+            # the interpreter's recursion limit was hit inside the z3 binding (deeply recursive code under
+            # test): surface it as the RecursionError the code under test would have seen
+            raise RecursionError("maximum recursion depth exceeded (inside the solver binding)") from None
         self.decided[key] = (d, cond)
         return d
 
